@@ -1,7 +1,7 @@
 """C16 - Queue behaves as an ideal double-ended sequence under every operation sequence.
 
  The property-level oracle is spec/Deque/Deque.tla: the sequence of items and NOTHING else (no capacity, no head offset), one action per
- public call of util/Queue.h with the result and failure condition its header comment documents (86 calls; Either / Undocumented where the
+ public call of util/Queue.h with the result and failure condition its header comment documents (87 calls; Either / Undocumented where the
  header is silent; documented preconditions respected).
 
  1. TLC model-checks Deque.tla (GenSpec: every call, arguments from small menus, values {1,2,3} + the default item 0, length <= 4; thorough:
@@ -20,8 +20,9 @@
     show what the specification expected).  The ring positions met are measured and required (coverage guard).
  Guards: one changed field of one recorded line / one behaviour step must be rejected exactly there (every run); a call that does not return
  within 20 s stops the harness (exit 68, confirmed by a second run); sanitizer reports are violations.
- Known findings (known_findings.json): F16realloc, QswapStale, QshrinkOverflow, QaddHeadSelf - each with a directed case; their inputs are
- kept out of the generated calls or recognised (and undone) by their exact predicate.
+ Known findings (known_findings.json): QswapStale is open (directed case; recognised and undone by its exact predicate); F16realloc,
+ QshrinkOverflow, QaddHeadSelf were found here and are repaired in /repo: their inputs are generated and judged normally, their directed cases
+ are ordinary judged cases (a reproduction is a VIOLATION).
 """
 import concurrent.futures as cf, json, os, random, re, collections
 import vlib, pathcover
@@ -283,14 +284,14 @@ def run(v, tier, seed):
         notes["model"] = info
         missing = [o for o in _all_ops() if o not in ops and o not in NOT_GENERATED]
         if missing: raise vlib.MachineryError("vacuity guard: calls of Deque.tla that no generated transition makes: %s" % missing)
-        rs = {"runs": 0, "followed": 0, "known": 0, "cut_short": 0, "known_realloc": 0, "steps": 0, "per_type": {}}
+        rs = {"runs": 0, "followed": 0, "known": 0, "cut_short": 0, "steps": 0, "per_type": {}}
         for typ, rc, se, rows in reps:
             rsum = [x for x in rows if x.get("summary")]
             if _stopped(rc):
                 v.violation("replay of TLC behaviours on Queue<%s>: %s (rc=%s): %s" % (typ, "a call did not return" if rc == 68 else "the sanitizer / a signal stopped the harness", rc, _san(se)), {"cmd": [qu, "replay", bf, "<report>", typ], "stderr": se[-6000:]}, tag="replay-sanitizer-" + typ)
                 continue
             if rc != 0 or not rsum: raise vlib.MachineryError("qu replay %s failed rc=%s: %s" % (typ, rc, se[-1500:]))
-            for k in ("runs", "followed", "known", "cut_short", "known_realloc", "steps"): rs[k] += rsum[0][k]
+            for k in ("runs", "followed", "known", "cut_short", "steps"): rs[k] += rsum[0][k]
             rs["per_type"][typ] = {k: rsum[0].get(k) for k in ("runs", "followed", "known", "cut_short", "steps", "ring_tuples", "calls_on_wrapped_ring", "distinct_ops_on_wrapped_ring", "reallocations_growing", "calls_on_inline_buffer", "calls_on_heap_array", "ring_classes_hit", "ring_classes_wanted", "ring_classes_missing")}
             for x in rows:
                 if x.get("summary"): continue
@@ -299,13 +300,10 @@ def run(v, tier, seed):
                 elif x.get("known"):
                     if not v.known_finding("QswapStale", KNOWN_TEXT["QswapStale"] + " [behaviour %s step %s: %s]" % (x.get("behaviour"), x.get("step"), x["known"][0][:200])):
                         v.violation("replay: " + "; ".join(x["known"]), x, tag="replay-" + typ)
-                elif x.get("known_realloc"):
-                    if not v.known_finding("F16realloc", KNOWN_TEXT["F16realloc"] + " [behaviour %s step %s]" % (x.get("behaviour"), x.get("step"))):
-                        v.violation("replay: " + x["known_realloc"], x, tag="replay-" + typ)
         samples += [{"kind": "behaviour replayed (first steps)", "steps": [{k: s[k] for k in ("op", "a", "b", "c", "v", "src", "st", "lo", "hi", "q")} for s in w[:5]]} for w in smp]
 
         # code -> spec
-        tot = {"lines": 0, "runs": 0, "accepted": 0, "calls": 0, "tuples": 0, "wrapped": 0, "known_realloc": 0, "shards": 0, "tlc_wall": 0.0, "tlc_states": 0}
+        tot = {"lines": 0, "runs": 0, "accepted": 0, "calls": 0, "tuples": 0, "wrapped": 0, "shards": 0, "tlc_wall": 0.0, "tlc_states": 0}
         missing_classes = None; per_type = {}
         for f in f_rnd:
             x = f.result(); tot["shards"] += 1
@@ -315,7 +313,7 @@ def run(v, tier, seed):
                     continue
                 raise vlib.MachineryError("qu random failed rc=%s: %s" % (x["rc"], x["stderr"][-1500:]))
             s = [y for y in x["rows"] if y.get("summary")][0]
-            tot["lines"] += x["lines"]; tot["runs"] += s["runs"]; tot["calls"] += s["calls"]; tot["wrapped"] += s["calls_on_wrapped_ring"]; tot["known_realloc"] += s["known_realloc"]
+            tot["lines"] += x["lines"]; tot["runs"] += s["runs"]; tot["calls"] += s["calls"]; tot["wrapped"] += s["calls_on_wrapped_ring"]
             tot["tlc_wall"] += x["tlc_wall_s"]; tot["tlc_states"] += x["distinct"]
             pt = per_type.setdefault(x["typ"], {"calls": 0, "ring_tuples_max_per_shard": 0, "classes_missing": None})
             pt["calls"] += s["calls"]; pt["ring_tuples_max_per_shard"] = max(pt["ring_tuples_max_per_shard"], s["ring_tuples"])
@@ -325,8 +323,6 @@ def run(v, tier, seed):
                 if y.get("violations"): v.violation("random calls on Queue<%s> (run %s, line %s of %s): %s" % (x["typ"], y.get("run"), y.get("trace_line"), x["trace"], "; ".join(y["violations"])), dict(y, cmd=x["cmd"]), tag="random-%s%d" % (x["typ"], x["shard"]))
                 elif y.get("known"):
                     if not v.known_finding("QswapStale", KNOWN_TEXT["QswapStale"]): v.violation("random calls: " + "; ".join(y["known"]), y, tag="random-%s%d" % (x["typ"], x["shard"]))
-                elif y.get("known_realloc"):
-                    if not v.known_finding("F16realloc", KNOWN_TEXT["F16realloc"] + " [random calls, run %s: %s]" % (y.get("run"), json.dumps(y.get("call")))): v.violation("random calls: " + y["known_realloc"], y, tag="random-%s%d" % (x["typ"], x["shard"]))
             if x["accepted"]: tot["accepted"] += s["runs"]
             else:
                 o = x["observed"]; e = x["expected"] or {}
@@ -349,16 +345,16 @@ def run(v, tier, seed):
            "replay_steps_compared": rs.get("steps", 0), "replay_per_type": rs.get("per_type"), "known_QswapStale_hits_in_replay": rs.get("known", 0),
            "random_executions": tot["runs"], "random_executions_accepted_by_tlc": tot["accepted"], "random_calls": tot["calls"], "trace_lines_validated_by_tlc": tot["lines"],
            "random_calls_on_wrapped_ring": tot["wrapped"], "random_per_type": per_type, "random_ring_classes": "all 135 (capacity 3/4/8 x head offset x 9 call groups) met for every item type",
-           "known_F16realloc_items_reset": tot["known_realloc"] + rs.get("known_realloc", 0), "directed_cases": {k: x for k, x in notes.items() if k.startswith("directed_")},
+           "directed_cases": {k: x for k, x in notes.items() if k.startswith("directed_")},
            "laws_shown_violable_in_this_run": sorted((w, l) for w, l in WRONG.items() if (not quick) or w in ("failchanges", "stale", "addhead", "indexofend")), "corrupted_trace_lines_rejected_by_tlc": notes.get("corrupted_trace_lines_rejected"),
            "evaluations": rs.get("steps", 0) + tot["calls"], "distinct_nontrivial": info["transitions"],
-           "rule": "distinct = transitions of the TLC state graph of Deque.tla (contents before, call, arguments; values %s + default, length <= %d, %d of the 86 calls), each taken at least once by a replayed walk and compared on 3 item types x 4 start configurations; non-trivial by construction (every call of the menu changes or queries a given contents). Random calls (all 86) are additional and not deduplicated." % (info["values"], info["max_length"], info["calls_generated"]),
+           "rule": "distinct = transitions of the TLC state graph of Deque.tla (contents before, call, arguments; values %s + default, length <= %d, %d of the 87 calls), each taken at least once by a replayed walk and compared on 3 item types x 4 start configurations; non-trivial by construction (every call of the menu changes or queries a given contents). Random calls (all 87) are additional and not deduplicated." % (info["values"], info["max_length"], info["calls_generated"]),
            "exhaustive": True, "samples": samples[:5]}
     assumptions = ["values are small integers: 0 is the default item; Queue<String> items are 1 or 24 characters (inline / heap String storage); Sort stability is not observable with them",
                    "out-of-memory and B_RESOURCE_LIMIT results are not provoked (sizes stay far below MUSCLE_NO_LIMIT; 99 in the specification stands for it)",
                    "documented preconditions are respected by the generators (valid indices for Swap and operator[], sorted contents for InsertItemAtSortedPosition / RemoveSortedDuplicateItems, FastClear only for trivially copyable items); where the header is silent nothing is required: InsertItemsAt beyond the end accepts either reading, the contents of a moved-from Queue (move constructor / move assignment; Plunder is documented) are not judged, AdoptRawDataArray is given default items beyond validItemCount",
                    "an argument that aliases the Queue itself (q.AddTail(q[i]), q.InsertItemAt(i, q[j]), q.AddTailMulti(q), an array inside q's own storage) means 'a copy taken before the call' - the reading the code's own re-entrancy guards implement",
-                   "the inputs of the four open findings (known_findings.json: F16realloc, QswapStale, QshrinkOverflow, QaddHeadSelf) are kept out of the generated calls or recognised by their exact predicate; each has a directed case",
+                   "the open finding QswapStale (known_findings.json) is recognised by its exact predicate (item type without move operations, history, Queue back in its inline buffer): the slots it left behind are counted and reset, everything else is judged normally; F16realloc, QshrinkOverflow, QaddHeadSelf are repaired in /repo: their inputs are generated and judged like any other, their directed cases are ordinary cases",
                    "memory safety is judged by ASan+UBSan (asan build variant); trivially copyable items outside the window are not required to be default items (the library does not clear them by design)"]
     return "model_checking", cov, assumptions
 
